@@ -44,7 +44,10 @@ def weights(fields_first, dV, q, c):
     w = dV[q, c if dV.shape[-1] > 1 else 0]
     f0 = fields_first
     if kind_of(f0) == "FieldAxisymmetric":
-        R = f0.radius[q, c if f0.radius.shape[-1] > 1 else 0]
+        # radius at the quadrature point from the mesh coordinates (second column), not the field's cached array
+        reg = f0.region
+        n = reg.h.shape[0]
+        R = float(np.dot(reg.mesh.points[reg.mesh.cells[c, :n], 1], reg.h[:, q, 0] if reg.h.ndim == 3 else reg.h[:, q]))
         return 2 * np.pi * R * w, R
     return w, None
 
